@@ -334,6 +334,12 @@ let step_preds : (string * (vconfig -> fstep -> bool)) list = [
   ("c14_datagram_ok", c14_datagram_ok);
   ("c14_segments_ok", c14_segments_ok);
   ("c08_deadline_ok", c08_deadline_ok);
+  ("c14_wire_ok", c14_wire_ok);
+  ("c05_window_ok2", c05_window_ok2);
+  ("c05_rto_exit_ok2", c05_rto_exit_ok2);
+  ("c05_zero_window_ok_open", c05_zero_window_ok_open);
+  ("c05_zero_window_strict_or_d16_open", c05_zero_window_strict_or_d16_open);
+  ("c05_monitor_core_ok", c05_monitor_core_ok);
   ("c06_no_resend_acked", c06_no_resend_acked);
   ("c05_zero_window_strict", c05_zero_window_strict);
   ("c05_d16_class_neg", (fun c st -> not (c05_d16_class c st)));
@@ -347,6 +353,9 @@ let step_preds : (string * (vconfig -> fstep -> bool)) list = [
   ("c07_delayed_ok", c07_delayed_ok);
   ("c07_fires_ok", c07_fires_ok);
   ("c07_window_update_ok", c07_window_update_ok);
+  ("c07_reasm_change_ok", c07_reasm_change_ok);
+  ("c07_dist_ok", c07_dist_ok);
+  ("c07_pre_monitor_g", c07_pre_monitor_g);
   ("c18_nagle_ok", c18_nagle_ok);
   ("c18_pre_monitor", c18_pre_monitor);
   ("c17_synack_ok", c17_synack_ok);
@@ -356,6 +365,8 @@ let step_preds : (string * (vconfig -> fstep -> bool)) list = [
   ("c17_reset_ok", c17_reset_ok);
   ("c03_ready_closed_ok", c03_ready_closed_ok);
   ("c03_no_hang_ok", c03_no_hang_ok);
+  ("c11_emitted_ok", c11_emitted_ok);
+  ("c11_conn_types_ok", c11_conn_types_ok);
   (* classifiers of known classes: OK = the step is in the class *)
   ("c02_d2_class_neg", (fun c st -> not (c02_d2_class c st)));
   ("c02_d8_class_neg", (fun c st -> not (c02_d8_class c st)));
@@ -366,6 +377,7 @@ let step_preds : (string * (vconfig -> fstep -> bool)) list = [
 let trace_preds : (string * (vconfig -> fstep list -> bool)) list = [
   ("c10_step_ok", c10_step_ok);
   ("c04_vsock_ack_ok", c04_vsock_ack_ok);
+  ("c04_consumed_honest_ok", c04_consumed_honest_ok);
   ("c05_slow_start_ok", c05_slow_start_ok);
   ("c04_d19_class", c04_d19_class);
   ("c02_prompt", c02_prompt);
@@ -373,6 +385,8 @@ let trace_preds : (string * (vconfig -> fstep list -> bool)) list = [
   ("c06_joint_ok", c06_joint_ok);
   ("c06_rp_exit_ok", c06_rp_exit_ok);
   ("c07_idle_silent_partial", c07_idle_silent_partial);
+  ("c07_trigger_ok", c07_trigger_ok);
+  ("c08_fires_ok", c08_fires_ok);
   ("c17_fin_seq_ok", c17_fin_seq_ok);
   ("c17_peer_fin_ok", c17_peer_fin_ok);
   ("c17_reset_trace_ok", c17_reset_trace_ok);
